@@ -6,6 +6,7 @@ replay=<path>` line is printed); 2 harness error (never printed as a violation).
 import hashlib
 import json
 import os
+import re
 import shutil
 import subprocess
 import sys
@@ -398,3 +399,19 @@ def run_allocfault(binary, prop, seed, n):
                     p = save_replay("%s-allocfault-crash-%d-%d.trace" % (prop, seed, i), "# write-sim trace v1\n# engine write-sim-allocfault\n# the process died (rc=%s) after an injected allocation failure; reproduce: write-sim allocfault --seed %d --run %d --prop %s\n# %s\n" % (rc, seed, i, prop, err.strip().splitlines()[0] if err.strip() else ""))
                     violations.append("VIOLATION property=%s replay=%s oracle=CRASH-AFTER-ALLOC-FAILURE engine=write-sim-allocfault seed=%d run=%d rc=%s" % (prop, p, seed, i, rc))
     return stats, violations
+
+
+def private_work_dir(base, name):
+    """A scratch directory under `base` that belongs to this process (two runs of one check must not share scratch
+    space); removed at exit, and leftovers of processes that no longer exist are removed first."""
+    import atexit
+    os.makedirs(base, exist_ok=True)
+    for d in os.listdir(base):
+        m = re.match(re.escape(name) + r"-(\d+)$", d)
+        if m and not os.path.exists("/proc/%s" % m.group(1)):
+            shutil.rmtree(os.path.join(base, d), ignore_errors=True)
+    w = os.path.join(base, "%s-%d" % (name, os.getpid()))
+    shutil.rmtree(w, ignore_errors=True)
+    os.makedirs(w)
+    atexit.register(shutil.rmtree, w, ignore_errors=True)
+    return w
